@@ -2,17 +2,21 @@ use crate::{
     graph::Reader,
     model::{
         document::{Document, DocumentInline},
-        Position,
+        InlineRange, Position,
     },
 };
 pub struct Parser {
     document: Document,
+    content: String,
 }
 
 impl Parser {
     pub fn new(content: &str, reader: impl Reader) -> Parser {
         let document = reader.document(content);
-        Parser { document }
+        Parser {
+            document,
+            content: content.to_string(),
+        }
     }
 
     pub fn link_at(&self, position: Position) -> Option<DocumentInline> {
@@ -21,6 +25,72 @@ impl Parser {
 
     pub fn url_at(&self, position: Position) -> Option<String> {
         self.document.link_at(position).and_then(|link| link.url())
+    }
+
+    // The range of the destination of the link at the position, found in the source text:
+    // a wiki link keeps it right after "[[", an autolink after "<", any other link after the
+    // last "](" (so a title, markup or a line break inside the link text do not shift it).
+    pub fn url_range_at(&self, position: Position) -> Option<InlineRange> {
+        let link = self.document.link_at(position)?;
+        let url = link.url()?;
+        let range = link.inline_range();
+        let start = self.offset(range.start)?;
+        let end = self.offset(range.end)?;
+        let source = self.content.get(start..end)?;
+
+        let after_opening = if source.starts_with("[[") {
+            2
+        } else if source.starts_with('<') {
+            1
+        } else {
+            source.rfind("](")? + 2
+        };
+        let rest = source.get(after_opening..)?;
+        let url_start = after_opening + rest.len()
+            - rest
+                .trim_start_matches(|c: char| c.is_whitespace() || c == '<')
+                .len();
+
+        if !source.get(url_start..)?.starts_with(&url) {
+            return None;
+        }
+
+        Some(self.position(start + url_start)..self.position(start + url_start + url.len()))
+    }
+
+    fn line_starts(&self) -> Vec<usize> {
+        std::iter::once(0)
+            .chain(self.content.match_indices('\n').map(|(index, _)| index + 1))
+            .collect()
+    }
+
+    // byte offset of a position given as line and UTF-16 column
+    fn offset(&self, position: Position) -> Option<usize> {
+        let line_start = *self.line_starts().get(position.line)?;
+        let mut units = 0;
+        for (index, c) in self.content.get(line_start..)?.char_indices() {
+            if units >= position.character {
+                return Some(line_start + index);
+            }
+            units += c.len_utf16();
+        }
+        Some(self.content.len())
+    }
+
+    fn position(&self, offset: usize) -> Position {
+        let line_starts = self.line_starts();
+        let line = line_starts
+            .iter()
+            .rposition(|line_start| *line_start <= offset)
+            .unwrap_or(0);
+        Position {
+            line,
+            character: self
+                .content
+                .get(line_starts[line]..offset)
+                .map(|text| text.encode_utf16().count())
+                .unwrap_or(0),
+        }
     }
 }
 
